@@ -2364,8 +2364,12 @@ impl Melda {
                 b_packs = Some(
                     packs
                         .iter()
-                        .map(|p| p.as_str().unwrap().to_string())
-                        .collect(),
+                        .map(|p| {
+                            p.as_str()
+                                .map(|s| s.to_string())
+                                .ok_or_else(|| anyhow!("pack_not_string"))
+                        })
+                        .collect::<Result<BTreeSet<String>>>()?,
                 );
             }
         }
